@@ -78,7 +78,11 @@ def make_layouts(rng, pop):
     s3 = [pop[i] for i in sh4] + [pop[i] for i in range(mid, n)]
     for f in (f1, f2, g1, g2, g3, h1, h2, e1, e2, s1, s2, s3):
         rng.shuffle(f)
-    return [one, two, [g1, g2, g3], [h1, h2], [e1, e2], [s1, s2, s3]]
+    # high ids: the same streams numbered from 1000 (a long list of ids - more alternatives than a machine word has bits -
+    # has entries below, inside and above the range of existing ids)
+    high = [dict(s, id=s["id"] + 1000) for s in pop]
+    rng.shuffle(high)
+    return [one, two, [g1, g2, g3], [h1, h2], [e1, e2], [s1, s2, s3], [high]]
 
 
 RUNS = [
